@@ -197,6 +197,16 @@ def classify(resp, objs, P):
     while j < n:
         s = oh["prefix"] + j
         found = None
+        if body[j] == 0:
+            z = j
+            while z < n and body[z] == 0:
+                z += 1
+            if segs[-1][0] == 0:
+                segs[-1][2] += z - j
+            else:
+                segs.append([0, 0, z - j])
+            j = z
+            continue
         # continuation of the current segment first, then the same stream offset in another object, then offsets
         # shifted by whole slots
         cands = []
@@ -215,13 +225,6 @@ def classify(resp, objs, P):
                 found = (o, off)
                 break
         if found is None:
-            if body[j] == 0:
-                if segs[-1][0] == 0:
-                    segs[-1][2] += 1
-                else:
-                    segs.append([0, 0, 1])
-                j += 1
-                continue
             return "H:" + "+".join("%d:%d:%d" % tuple(x) for x in segs) + "+?@%d" % j
         o, off = found
         # extend as far as the bytes agree
@@ -261,7 +264,7 @@ def run_one(L, s):
         for o in objs:
             o["url"] = _url(org, sid, o["u"])
             o["prefix"] = prefix_of(o["url"], o["size"])
-            o["body"] = lab.body_bytes(o["size"], 1000 * sid + o["id"])
+            o["body"] = body_of(o["size"], 1000 * sid + o["id"])
         k = 0
         expected = 0
         crashed = False
@@ -330,13 +333,32 @@ def run_one(L, s):
         it.close()
 
 
+_bodies = {}
+
+
+def body_of(size, seed):
+    """deterministic body without zero bytes (so that the zero filling of a never-written slot area is recognisable)"""
+    with _lock:
+        b = _bodies.get((size, seed))
+    if b is None:
+        r = random.Random(seed)
+        block = bytes(r.randrange(1, 256) for _ in range(min(size, 4099)))
+        b = (block * (size // len(block) + 1))[:size] if size else b""
+        with _lock:
+            if len(_bodies) > 400:
+                _bodies.clear()
+            _bodies[(size, seed)] = b
+    return b
+
+
 def _hook(rec, spec):
     cur = _state["cur"].get(rec["rid"])
     if not cur:
         return {"status": 404, "body": "nope"}
     ver, size = cur[0], cur[1]
     seed = cur[2] if len(cur) > 2 else 1
-    return {"body_gen": [size, seed], "headers": BODY_HDRS + [["X-V", "%04d" % ver]]}
+    import base64
+    return {"body_b64": base64.b64encode(body_of(size, seed)).decode(), "headers": BODY_HDRS + [["X-V", "%04d" % ver]]}
 
 
 def setup(L):
@@ -356,7 +378,7 @@ def run_impl(L, scenarios):
         if "_sid" not in s:
             _state["sid"] = _state.get("sid", 0) + 1
             s["_sid"] = _state["sid"]
-    with concurrent.futures.ThreadPoolExecutor(max_workers=int(os.environ.get("VERIF_C16_PAR", "6"))) as ex:
+    with concurrent.futures.ThreadPoolExecutor(max_workers=int(os.environ.get("VERIF_C16_PAR", "8"))) as ex:
         return list(ex.map(lambda s: run_one(L, s), scenarios))
 
 
@@ -408,6 +430,41 @@ def hit_is_whole_object(tok, cands):
     return any(o == c[0] and off == 0 and cnt == c[1] for c in cands)
 
 
+def crashing_op(s):
+    """index of the operation during which the kill happens (None = after all of them), by slot arithmetic"""
+    at = s.get("at")
+    if not at:
+        return None
+    org = _state["org"]
+    cal = _state["cal"]
+    done = 0
+    objs = objects_of(s)
+    k = 0
+    for i, op in enumerate(s["ops"]):
+        if op[0] == "purge":
+            continue
+        o = objs[k]
+        k += 1
+        url = _url(org, s["_sid"], op[1])
+        done += -(-(prefix_of(url, o["size"]) + o["size"]) // cal["P"])
+        if at <= done:
+            return i
+    return None
+
+
+def bad_hit_signature(s, u, tok):
+    """names the two known ways (and keeps everything else apart): (a) crash at a write boundary while a new version
+    of the same URL is being written over the slots of its predecessor; (b) torn slot write"""
+    nobj = len(set(x.split(":")[0] for x in tok[2:].split("+")))
+    what = "mixed" if nobj > 1 else "cut"
+    if s.get("partial"):
+        return "oracle:hit-not-one-version:torn-write:" + what
+    i = crashing_op(s)
+    if i is not None and s["ops"][i][1] == u and any(op[1] == u and op[0] != "purge" for op in s["ops"][:i]):
+        return "oracle:hit-not-one-version:same-url-overwrite-in-flight:" + what
+    return "oracle:hit-not-one-version:other:" + what
+
+
 def oracle(s, obs):
     """C16 on what squid did: it restarts; every hit after the restart is byte for byte one complete response
     (metadata + headers + body) that the origin had sent for that URL before the crash"""
@@ -432,11 +489,10 @@ def oracle(s, obs):
                 url = _url(org, s.get("_sid"), u)
                 cands.append((o["id"], prefix_of(url, o["size"]) + o["size"]))
         if not hit_is_whole_object(tok, cands):
-            kind = "torn" if s.get("partial") else "boundary"
-            nobj = len(set(x.split(":")[0] for x in tok[2:].split("+")))
-            return ("oracle:hit-not-one-version:%s:%s" % (kind, "mixed" if nobj > 1 else "cut"),
+            return (bad_hit_signature(s, u, tok),
                     "URL %d: the hit served after the restart is not one complete stored response: content %s "
-                    "(object:offset:count segments; candidates %s)" % (u, tok, cands))
+                    "(object:offset:count segments of the stored streams, object 0 = never-written zero bytes; "
+                    "complete versions would be %s)" % (u, tok, cands))
     return None
 
 
@@ -490,7 +546,7 @@ def run(res, tier):
         std.run_lab(res, PID, tier, area="diskcrash", gens=["diskcrash"], gen_scenarios=gen_scenarios,
                     run_impl=run_impl, to_case=to_case, oracle=oracle,
                     corr_name="DiskcrashModel (writes, rebuild, hit) vs the running squid",
-                    n_quick=28, n_thorough=600, seed_salt=16,
+                    n_quick=24, n_thorough=600, seed_salt=16,
                     kind_fn=kind_fn, nontrivial_fn=lambda s, o: " | " in o)
     finally:
         _state.clear()
